@@ -10,19 +10,19 @@ ID = 'C14'
 LEVEL = 'exploration'
 BUDGET = {'quick': 150, 'thorough': 1800}
 CHUNK = 2
-RULE = ('Cases: unambiguous tables of 2..12 samples (a few per run of 13..48 samples and 700..5000 rows or 3..12 samples and 12000..20000 rows; all bases; constant rows, which the program pre-filters and adds back; '
+RULE = ('Cases: unambiguous tables of 2..12 samples (a few per run of 13..48 samples and 700..5000 rows or 3..12 samples and 12000..20000 rows, and of 256..300 samples with rows present in exactly 255/256/257 of them; all bases; constant rows, which the program pre-filters and adds back; '
         'rows with gaps in every missingness pattern; duplicated samples; rows below a frequency threshold next to rows above '
         'it in >=3 samples) constructed through `ska build`, and planted-SNP genome sets.  `ska distance [--min-freq j/n or 0.3/0.45/0.6/0.85] '
         '[--allow-ambiguous] [--threads 1|2|4]` is compared with the model in exact rationals: SNPs = rows present in both and '
         'different, mismatch = rows in exactly one / rows in at least one, over rows present in >= ceil(f*n) samples; tolerance '
-        'half a unit of the last printed digit.  Also: every unordered pair exactly once in input order, identical samples at '
+        'half a unit of the last printed digit.  Also: every unordered pair exactly once in input order (also when two samples carry the same name), identical samples at '
         '(0,0), proportion in [0,1], invariance under sample permutation and thread count, and the same figures for the same table held in a file with a history (extra samples built in and deleted again; two halves merged), written with -o over an existing longer file.  Non-trivial: some pair has SNPs > 0 '
         'and 0 < mismatch < 1; distinct = distinct (table, setting).')
 ASSUMPTIONS = ['tables hold only A/C/G/T and gaps (the statement is about files without ambiguity codes)',
                'min-freq passed as a short decimal; exact rational used by the oracle']
 REQUIRED = {t: ['minfreq_drops_rows_with_3plus_samples', 'constant_rows', 'identical_sample_pairs', 'permutation_checked',
                 'threads:1', 'threads:2', 'threads:4', 'allow_ambiguous', 'pairs_checked',
-                'history:delete', 'history:merge', 'history_allow_ambiguous_minfreq_drops', 'large_tables', 'tables_over_8192_rows'] for t in ('quick', 'thorough')}
+                'history:delete', 'history:merge', 'history_allow_ambiguous_minfreq_drops', 'large_tables', 'tables_over_8192_rows', 'tables_of_256+_samples', 'files_with_a_repeated_sample_name'] for t in ('quick', 'thorough')}
 
 
 def builds(tier):
@@ -42,6 +42,10 @@ def plan(tier, seed, rng, scale):
         nr = [700, 2000, 5000, 12000, 20000, 12000][i % 6]
         descs.insert(20 + 7 * i, {'ns': rng.randint(13, 48) if nr <= 5000 else rng.randint(3, 12), 'k': rng.choice([15, 31, 33]), 'seed': rng.getrandbits(32),
                                   'kind': 'table', 'nrows': nr})
+    for i in range(int((3 if tier == 'quick' else 12) * max(scale, 0.34))):
+        # hundreds of samples: per-row tallies beyond 255, tens of thousands of pairs
+        descs.insert(10 + 5 * i, {'ns': [257, 256, 300, 258][i % 4], 'k': rng.choice([15, 31, 33]), 'seed': rng.getrandbits(32), 'kind': 'table',
+                                  'nrows': rng.randint(20, 50), 'crowd': True})
     for i, d in enumerate(descs):
         d['chk'] = (i % 6 == 0) and not d.get('nrows')
     return descs
@@ -152,12 +156,33 @@ def run_case(desc, ctx):
         fns = [G.write_fa(ctx.path('s%d.fa' % i), recs) for i, recs in enumerate(samples)]
     else:
         rows = make_unamb(rng, k, ns, desc.get('nrows') or rng.randint(1, 60))
+        if desc.get('crowd'):
+            # rows present in exactly 255 / 256 / 257 samples, with one or two alleles
+            for want in (255, 256, 257, 256):
+                if want <= ns:
+                    arms = G.canonical_arms(rng, k)
+                    idx = set(rng.sample(range(ns), want))
+                    alle = rng.choice(['A', 'AC'])
+                    rows[arms] = [rng.choice(alle) if i in idx else '-' for i in range(ns)]
+            res.count('tables_of_256+_samples')
         fns = G.write_table_samples(ctx, rows, k, ns)
     res.see('nsamples', ns)
     res.see('k', k)
     for variant in (['rel', 'chk'] if desc.get('chk') else ['rel']):
         b = ctx.bins[variant]
-        p = G.ska_build(ctx, ctx.path('t'), fns, k, True, binary=b)
+        dup = desc['seed'] % 10 == 7 and ns >= 3 and not desc.get('nrows')
+        if dup:
+            # two samples with the same name (the same isolate from two runs): every unordered pair of SAMPLES still appears once
+            r_ = random.Random(desc['seed'] ^ 0xd0)
+            i_, j_ = sorted(r_.sample(range(ns), 2))
+            names = ['s%d' % x for x in range(ns)]
+            names[j_] = names[i_]
+            lst = ctx.write('dup.list', ''.join('%s\t%s\n' % (names[x], fns[x]) for x in range(ns)))
+            p = G.ska_build(ctx, ctx.path('t'), ['-f', lst], k, True, binary=b)
+            if variant == 'rel':
+                res.count('files_with_a_repeated_sample_name')
+        else:
+            p = G.ska_build(ctx, ctx.path('t'), fns, k, True, binary=b)
         if p.returncode != 0:
             res.count('setup_build_failed')
             return res
@@ -167,7 +192,7 @@ def run_case(desc, ctx):
             return res
         # the same table as a file with a history: extra samples built in and deleted again, or two halves merged
         hist = None
-        if desc['seed'] % 3 != 0:
+        if desc['seed'] % 3 != 0 and not dup:
             hist = 'delete' if (desc['seed'] % 3 == 1 or ns < 2) else 'merge'
             if hist == 'delete':
                 ne = rng.randint(1, 2)
@@ -199,7 +224,7 @@ def run_case(desc, ctx):
         G.ska_build(ctx, ctx.path('tp'), [fns[i] for i in perm], k, True, binary=b)
         if desc.get('nrows') and variant == 'rel':
             res.count('large_tables')
-            if desc['nrows'] > 8192:
+            if desc['nrows'] > 8192 and not desc.get('crowd'):
                 res.count('tables_over_8192_rows')
         freqs = ['0'] + [('%.4f' % (j / ns)).rstrip('0').rstrip('.') for j in range(1, ns + 1) if (j * 10000) % ns == 0]
         freqs += ['0.3', '0.45', '0.6', '0.85']          # f*n not integral for most n: ceil matters
@@ -241,8 +266,8 @@ def run_case(desc, ctx):
             if dropped and ns >= 3:
                 res.count('minfreq_drops_rows_with_3plus_samples')
             res.count('constant_rows', sum(1 for r in rows.values() if len(set(r)) == 1))
-            for (n1, n2, d, m) in exp:
-                i, j = names.index(n1), names.index(n2)
+            pair_idx = [(i_, j_) for i_ in range(ns) for j_ in range(i_ + 1, ns)]
+            for (n1, n2, d, m), (i, j) in zip(exp, pair_idx):
                 if all(r[i] == r[j] for r in rows.values()):
                     res.count('identical_sample_pairs')
                     if d != 0 or m != 0:
@@ -267,6 +292,8 @@ def run_case(desc, ctx):
                     res.count('history:' + hist)
                     if aa and dropped:
                         res.count('history_allow_ambiguous_minfreq_drops')
+            if dup:
+                continue
             # permutation invariance: same unordered pair, same values (model-free)
             ap = ctx.sh(b, 'distance', ctx.path('tp.skf'), *args)
             res.evals += 1
